@@ -38,8 +38,9 @@ def run_gs(case, deadline=10.0):
     from socialchoicekit.deterministic_matching import GaleShapley
     from socialchoicekit.profile_utils import StrictProfile
     R = to_np(case["R"], case.get("dtype", "float")); H = to_np(case["H"], case.get("dtype", "float"))
-    c = np.array(case["c"], dtype=int)
-    R0, H0, c0 = R.copy(), H.copy(), c.copy()
+    cenc = case.get("cdtype", "int64")      # how the caller stores the capacities
+    c = list(case["c"]) if cenc == "list" else np.array(case["c"], dtype={"float": float}.get(cenc, cenc))
+    R0, H0, c0 = R.copy(), H.copy(), (list(c) if cenc == "list" else c.copy())
     def go():
         return GaleShapley(resident_oriented=case["ro"], zero_indexed=case["zi"]).scf(StrictProfile.of(R), StrictProfile.of(H), c)
     r = supervised(go, deadline)
@@ -49,7 +50,7 @@ def run_gs(case, deadline=10.0):
         pairs = [[int(a), int(b)] for a, b in r[1]]
     except Exception:  # noqa
         return dict(status="malformed", msg=repr(r[1])[:200])
-    same = lambda a, b: a.shape == b.shape and a.dtype == b.dtype and a.tobytes() == b.tobytes()
+    same = lambda a, b: (a == b) if isinstance(a, list) else (a.shape == b.shape and a.dtype == b.dtype and a.tobytes() == b.tobytes())
     return dict(status="ok", pairs=pairs, mutated=not (same(R, R0) and same(H, H0) and same(c, c0)))
 
 def check_stable(case, pairs0):
@@ -152,8 +153,10 @@ def gen_cases(rng, tier, exh=True):
         dt = "float"
         if pn == 0 and i % 3 == 0:
             dt = rng.choice(["int64", "int32"])
+        # capacities as the caller may store them: signed / unsigned integer arrays of any width, floats, a plain list
+        cenc = ["int64", "int32", "uint8", "uint16", "uint32", "uint64", "int8", "float", "list"][i % 9]
         for ro in (True, False):
-            yield dict(entry="GaleShapley.scf", family="random", R=R, H=H, c=c, ro=ro, zi=bool(i % 2), dtype=dt)
+            yield dict(entry="GaleShapley.scf", family="random", R=R, H=H, c=c, ro=ro, zi=bool(i % 2), dtype=dt, cdtype=cenc)
 
 def shrink_gs(case):
     R, H, c = case["R"], case["H"], case["c"]
